@@ -20,6 +20,14 @@ func c19RandStr(g *srcGen, max int) string {
 	return sb.String()
 }
 
+var c19TreeExtras = []string{
+	"<div><!-- c --><p>a <b>b</b> <i>c</i>  d</p></div>", "<p>  lead <span> x </span> <em>y</em>tail  </p>", "<div>  text  <p></p><br><img src=\"a.png\"></div>",
+	"<span><i>x</i></span>", "<ul>\n  <li>one</li>\n  <li><a href=\"#\">two</a> </li>\n</ul>", "<div><span>a</span> <span>b</span></div>", "<section><h2>T <small>s</small></h2><div><p>x</p>y</div></section>",
+	"<p><b> </b></p>", "<div> </div>", "<button><span>x</span><div>y</div></button>", "<label>Name <input name=\"n\"></label>", "<pre>\n\nx <b>\ny</b></pre>",
+	"<script></script><style>\n\n  a{}\n\n</style><script>\n   x\n     y\n</script>", "<p>a<!-- c -->b</p>", "<td>cell <b>b</b></td>", "<dl><dt>t</dt><dd>d <code>c</code></dd></dl>",
+	"<div>{{ a < b }} &amp; <b>{{ x }}</b></div>", "<p>\u00a0x\u00a0</p>", "<my-tag><span>x</span></my-tag>", "<a href=\"x\"><div>block in inline</div></a>",
+}
+
 func c19ModelStreams(r *Run) {
 	g := &srcGen{r: r.Rng}
 	n := 1500
@@ -59,6 +67,22 @@ func c19ModelStreams(r *Run) {
 		// (3) text
 		s := c19RandStr(g, 8)
 		r.Add(&Case{Name: "text", Op: true, Input: map[string]any{"op": "fmt", "kind": "text", "s": s}, Impl: map[string]any{"out": formatter.VerifEscapeText(s)}, Key: "text|" + s, Tags: []string{"stream:fmt-text"}})
+
+		// (5) the tree walk: formatNode over the parsed DOM of a generated source (and of sources with comments, nested inline elements,
+		// whitespace-only text between inline elements, empty and void elements), at depths 0-2
+		{
+			src := c19Generate(g)
+			if strings.HasPrefix(src, "---") || strings.Contains(src, "</html>") {
+				src = c19TreeExtras[g.r.Intn(len(c19TreeExtras))]
+			}
+			if i%3 == 0 {
+				src = c19TreeExtras[g.r.Intn(len(c19TreeExtras))] + src
+			}
+			nodes := parseFragment(src)
+			depth := g.r.Intn(3)
+			out := formatter.VerifFormatNodes(nodes, depth)
+			r.Add(&Case{Name: "tree", Op: true, Input: map[string]any{"op": "fmt", "kind": "tree", "nodes": nodesToJSON(nodes), "depth": depth, "src": src}, Impl: map[string]any{"out": out}, Key: "tree|" + src + "|" + string(rune('0'+depth)), Tags: []string{"stream:fmt-tree"}})
+		}
 
 		// (4) front-matter split
 		var lines []string
